@@ -377,7 +377,7 @@ def raw_write(path, arr, fmt):
 def scan_tiles(base, fmt):
     """All tile files in the L/Y/YX layout: {pos: path}; plus files of other kinds."""
     found, other = {}, []
-    for path in glob.glob(os.path.join(base, "*", "*", "*_*.*")):
+    for path in glob.glob(os.path.join(glob.escape(base), "*", "*", "*_*.*")):
         rel = os.path.relpath(path, base).split(os.sep)
         stem, ext = os.path.splitext(rel[2])
         try:
